@@ -12,7 +12,7 @@ from .base import Check, Outcome, InvalidScenario
 from . import wcommon as W
 
 ACCESSORS = ["attributes", "fields", "fields_except_padding", "constants", "name_components", "namespace_components"]
-MUTATIONS = ["append", "clear", "reverse", "replace", "pop", "extend", "sort_by_id"]
+MUTATIONS = ["append", "clear", "reverse", "replace", "pop", "extend", "rotate"]
 _PEER = [None]
 
 
@@ -133,8 +133,8 @@ class C18(Check):
                         lst.pop()
                     elif mut == "extend":
                         lst.extend(snapshot)
-                    elif mut == "sort_by_id":
-                        lst.sort(key=lambda x: -id(x))
+                    elif mut == "rotate":
+                        lst.append(lst.pop(0)) if lst else None
                 except Exception:
                     pass
                 changed = lst != snapshot
